@@ -377,6 +377,37 @@ def build(active_known=frozenset()):
     return pack
 
 
+GEN_REPLAY = r'''
+import subprocess, sys, tempfile, os
+src = """(ns c10.replay.gen)
+(def x 1)
+(defn f [x] c10.replay.gen/x)
+(defn g [& x] c10.replay.gen/x)
+(defn h [x] (fn [] c10.replay.gen/x))
+(defn k [x] (let [x 3] [x c10.replay.gen/x]))
+(def ^:redef r 1)
+(defn rd [] r)
+(alter-var-root #'r inc)
+(def ^:dynamic *d* 1)
+(defn dd [] *d*)
+(println "RESULT" (f 2) (g 2) ((h 2)) (k 2) (rd) (binding [*d* 5] (dd)))
+"""
+with tempfile.NamedTemporaryFile("w", suffix=".lpy", delete=False) as fh:
+    fh.write(src)
+try:
+    out = subprocess.run([sys.executable, "-m", "basilisp.cli", "run", fh.name], capture_output=True, text=True, timeout=300)
+finally:
+    os.unlink(fh.name)
+line = [l for l in out.stdout.splitlines() if l.startswith("RESULT")]
+got = line[0] if line else "no output: " + out.stderr[-300:]
+want = "RESULT 1 1 1 [3 1] 2 5"
+print("qualified references to a Var shadowed by parameters, a redef Var after alter-var-root, a dynamic Var under binding:")
+print("  got     ", got)
+print("  expected", want)
+print("REPRODUCED" if got != want else "not reproduced")
+'''
+
+
 FLAG_REPLAY = r'''
 from basilisp.lang import runtime as rt, symbol as sym, keyword as kw, map as lmap
 from basilisp.lang.compiler import generator as gen
@@ -613,7 +644,10 @@ def add_generator_contracts(pack):
                             z3.If(indirect(a), through_var(a, n), z3.Or(direct, through_var(a, n)))))
 
     c.ensures("a Var marked dynamic or redef, and every Var when indirection is switched on or overridden, is read through Var.find(..).value with the Var's own name and "
-              "namespace; otherwise the reference is that form or a direct link to the module attribute resolved for the Var's name", var_sym_post)
+              "namespace; otherwise the reference is that form or a direct link to the module attribute resolved for the Var's name - and never a direct link to a "
+              "Python name that a function parameter in scope is bound to", var_sym_post)
+    c.replay(lambda m, ctx, ob: GEN_REPLAY)
+    c.replay_without_model = True
 
 
 # ----------------------------------------------------------------------------- is spec_munge injective?
